@@ -209,6 +209,39 @@ mut('C15', 'grid', "return self._index.get(str(index), default)", "return self._
 mut('C15', 'grid', "            result._index=None\n", "            result._index=self._index\n")
 mut('C15', 'zincparser', "    g.extend(map(lambda row: dict(zip(col_meta.keys(), row)), rows))", "    g._row.extend(map(lambda row: dict(zip(col_meta.keys(), row)), rows))")
 
+# ---- C12 / C13 -----------------------------------------------------------------------
+mut('C12', 'datatypes', "return 'XStr(%r, %r)' % (self.encoding, self.data_to_string())", "return '%s(\"%s\")' % (self.encoding, self.data_to_string())", name='revert fix: XStr repr')
+mut('C12', 'datatypes', """        return '%s(%r, %r, %r)' % (
+            self.__class__.__name__, self.name, self.value, self.has_value
+        )""", """        return '%s(%r, %s, %r)' % (
+            self.__class__.__name__, self.name, self.value, self.has_value
+        )""", name='Ref repr with %s')
+mut('C12', 'grid_filter', "def_filter.append(repr(node))", "def_filter.append(str(node))")
+mut('C12', 'grid_filter', "return FilterAST(hs_filter.parseString(filter, parseAll=True)[0])", "return FilterAST(hs_filter.parseString(filter, parseAll=False)[0])")
+mut('C12', 'grid_filter', "hs_id = Regex(r'[a-z][a-zA-Z0-9_]*')", "hs_id = Regex(r'[a-z][a-zA-Z0-9_\\]\\[)(,]*')")
+mut('C12', 'grid_filter', 'hs_cmpOp = Literal("==") | Literal("!=")', 'hs_cmpOp = Regex(r"[=!<>a-z(]+") | Literal("==") | Literal("!=")')
+mut('C12', 'datatypes', """        return '%s(%s)' % (self.__class__.__name__,
+                           super(Uri, self).__repr__())""", """        return '%s(%s)' % (self.__class__.__name__, self)""", name='Uri repr unquoted')
+mut('C12', 'grid', """        result = Grid(version=self.version, metadata=self.metadata, columns=self.column)
+        fn = filter_function(filter)""", """        result = Grid(version=self.version, metadata=self.metadata, columns=self.column)
+        self.metadata['lastFilter'] = filter
+        fn = filter_function(filter)""", name='filter writes self.metadata')
+mut('C12', 'grid_filter', "def _get_path(grid, obj, paths):\n    try:", "def _get_path(grid, obj, paths):\n    import os\n    try:")
+mut('C13', 'grid_filter', """    with _id_function_lock:
+        fun_name = "_gen_hsfilter_" + str(_id_function)
+        _id_function += 1""", """    fun_name = "_gen_hsfilter_" + str(_id_function)
+    _id_function += 1""", name='revert fix: lock')
+mut('C13', 'grid_filter', """    with _id_function_lock:
+        fun_name = "_gen_hsfilter_" + str(_id_function)
+        _id_function += 1""", """    fun_name = "_gen_hsfilter_" + str(_id_function)
+    with _id_function_lock:
+        _id_function += 1""", name='read outside lock')
+mut('C13', 'grid_filter', 'fun_name = "_gen_hsfilter_" + str(_id_function)', 'fun_name = "_gen_hsfilter_" + str(len(filter))')
+mut('C13', 'grid_filter', "del globals()[self.fun_name]", "del globals()[sorted(k for k in globals() if k.startswith('_gen_hsfilter_'))[0]]")
+mut('C13', 'grid_filter', "def _filter_function(filter):", "def _filter_function(filter, *extra):")
+mut('C13', 'grid_filter', "    return _filter_function(filter).get()", "    return _filter_function(filter.strip()[:32]).get()")
+mut('C13', 'grid_filter', "        _id_function += 1\n", "        _id_function += 0\n")
+
 
 def run(selected):
     base_cache = {}
